@@ -65,6 +65,11 @@ class Interp(Run, StmtMixin, ExprMixin, CallMixin, BuiltinMixin, LoopMixin, Spec
     def get_attr(self, obj, name, n=None, frame=None):
         if obj.k == "py" and isinstance(obj.r, tuple) and obj.r and obj.r[0] == "event":
             ev = obj.r[1]
+            if name == "star":
+                v = ev.get("star")
+                return TV("val", v, "dict") if v is not None else tv_none()
+            if name == "kwargs":
+                return py({k: TV("val", v) for k, v in ev.get("kwargs", {}).items() if v is not None}, "cdict")
             if name in ("result", "exc", "callee"):
                 v = ev.get(name)
                 if v is None:
@@ -212,6 +217,17 @@ class Interp(Run, StmtMixin, ExprMixin, CallMixin, BuiltinMixin, LoopMixin, Spec
                                               for i in range(ln.as_long())]}
             except Exception as e:  # pragma: no cover
                 out[name] = f"<{e}>"
+        env = getattr(self, "last_post_env", None)
+        if env is not None and self.unit is not None:
+            # extra witness values the unit's replay driver asks for
+            for nm, text in (self.unit.ghost.get("model_exprs") or {}).items():
+                try:
+                    from .spec import SpecEval
+
+                    tv = SpecEval(self, env, self.entry_heap, self.heap, {}).expr(text)
+                    out[nm] = model_value(m.eval(self.to_val(tv), model_completion=True))
+                except Exception as e:  # noqa: BLE001
+                    out[nm] = f"<unavailable: {type(e).__name__}>"
         out["__path__"] = [f"{l}={d}" for l, d in self.branch_log]
         self.last_z3_model = m
         return out
@@ -319,6 +335,17 @@ class Interp(Run, StmtMixin, ExprMixin, CallMixin, BuiltinMixin, LoopMixin, Spec
         try:
             if region_node is not None:
                 val = tv_none()
+                # nested function definitions of the enclosing function are visible in the region
+                skip = set()
+                for nd in ast.walk(node):
+                    if isinstance(nd, (ast.FunctionDef, ast.Lambda)) and nd is not node:
+                        for sub in ast.walk(nd):
+                            if sub is not nd and isinstance(sub, ast.FunctionDef):
+                                skip.add(id(sub))
+                for nd in ast.walk(node):
+                    if isinstance(nd, ast.FunctionDef) and nd is not node and id(nd) not in skip \
+                            and nd.name not in fr.vars:
+                        fr.vars[nd.name] = py(PyFunc(nd, fr, mi, qual + "." + nd.name), "func")
                 try:
                     if rkind == "body":
                         if isinstance(region_node, ast.While):
@@ -388,6 +415,14 @@ class Interp(Run, StmtMixin, ExprMixin, CallMixin, BuiltinMixin, LoopMixin, Spec
             if getattr(unit, "region", None):
                 env.setdefault(k, v)
         kind, payload = self.outcome
+        if not self.feasible():
+            # assumptions made after the last branch contradict the path: nothing to prove
+            raise PathEnd("path condition became inconsistent")
+        self.last_post_env = dict(env)
+        if kind == "ret":
+            self.last_post_env["result"] = payload
+        else:
+            self.last_post_env["exc"] = payload.exc
         if not (kind == "exc" and payload.implicit and not unit.wd):
             self.check_preserved(unit.preserves, self.entry_heap.ver, "FRAME", "unit")
             if not getattr(unit, "region", None) and unit.modifies != ["*"] and not unit.ghost.get("no_frame_check"):
